@@ -432,6 +432,18 @@ class Grid(object):
         self._dtype = value
         self._data = self._data.astype(value)
 
+        # Keep the nodata value in the same type than the data
+        # (unless it has no equivalent, e.g. nan for an integer type)
+        try:
+            with np.errstate(invalid="raise", over="raise"):
+                nodata = value(self._nodata)
+
+            if nodata == self._nodata:
+                self._nodata = nodata
+
+        except (ValueError, OverflowError, TypeError, FloatingPointError):
+            pass
+
     @property
     def mindata(self):
         """ Get data minimum allowed """
